@@ -229,21 +229,7 @@ func (c *IPPoolController) reconcileConditions(ctx context.Context) ([]*v3.IPPoo
 			t = triev6
 		}
 
-		// If the pool is administratively disabled, reflect that in its conditions and skip it for the purposes of
-		// determining overlaps, since an administratively disabled pool should not block other pools from being active.
-		if pool.Spec.Disabled {
-			cond := metav1.Condition{
-				Type:    v3.IPPoolConditionAllocatable,
-				Status:  metav1.ConditionFalse,
-				Reason:  v3.IPPoolReasonDisabled,
-				Message: "IPPool.Spec.Disabled is true",
-			}
-			if err := updateCondition(ctx, c.cli, pool, cond); err != nil {
-				logrus.WithError(err).WithField("pool", pool.Name).Error("Failed to update status of IPPool")
-				errs = append(errs, err)
-			}
-			continue
-		}
+		// A pool that is being deleted is handled first, whether or not it is also administratively disabled.
 		if pool.DeletionTimestamp != nil {
 			cond := metav1.Condition{
 				Type:    v3.IPPoolConditionAllocatable,
@@ -257,8 +243,26 @@ func (c *IPPoolController) reconcileConditions(ctx context.Context) ([]*v3.IPPoo
 			}
 			// If the pool is being deleted, we still want to consider it for overlaps.
 			// This ensures we don't preemptively enable another pool that might overlap with it until this pool
-			// is fully deleted.
+			// is fully deleted. This check comes before the Spec.Disabled check so that a terminating pool keeps
+			// masking overlapping pools even if it is (or becomes) administratively disabled while it waits for
+			// its blocks to be released.
 			t.Update(cidr, pool)
+			continue
+		}
+
+		// If the pool is administratively disabled, reflect that in its conditions and skip it for the purposes of
+		// determining overlaps, since an administratively disabled pool should not block other pools from being active.
+		if pool.Spec.Disabled {
+			cond := metav1.Condition{
+				Type:    v3.IPPoolConditionAllocatable,
+				Status:  metav1.ConditionFalse,
+				Reason:  v3.IPPoolReasonDisabled,
+				Message: "IPPool.Spec.Disabled is true",
+			}
+			if err := updateCondition(ctx, c.cli, pool, cond); err != nil {
+				logrus.WithError(err).WithField("pool", pool.Name).Error("Failed to update status of IPPool")
+				errs = append(errs, err)
+			}
 			continue
 		}
 
